@@ -55,10 +55,10 @@ func NewFloatListDecoder(reuseRecords bool) *FloatListDecoder {
 
 func (d *FloatListDecoder) makeFloatSlice(n uint32) []float64 {
 	if d.sl == nil {
-		return make([]float64, 0, n)
+		return make([]float64, 0, preallocCap(n))
 	}
 	if n > uint32(cap(d.sl)) {
-		d.sl = make([]float64, n)
+		d.sl = make([]float64, 0, preallocCap(n))
 	}
 	return d.sl[:0]
 }
